@@ -1178,6 +1178,10 @@ class Interp:
                 import sys as _sys
                 return getattr(_sys.float_info, attr)      # IEEE-754 double constants, the same on every CPython build
             return ExtVal(o.module, (o.attr + "." if o.attr else "") + attr)
+        if isinstance(o, Builtin) and attr in ("__name__", "__qualname__") and "." not in o.name:
+            return Tmpl.lit(o.name)               # the name of a built-in type is fixed text
+        if isinstance(o, ClassVal) and attr in ("__name__", "__qualname__"):
+            return Tmpl.lit(o.name)
         if isinstance(o, Builtin) and o.name in ("str", "int", "float", "list", "tuple", "dict", "set", "object"):
             return Builtin(f"{o.name}.{attr}")
         if isinstance(o, ModuleVal):
@@ -2641,6 +2645,14 @@ class Interp:
             return self.render(args[0], "ascii", site)
         if name == "format" and len(args) == 1:
             return self.render(args[0], "str", site)
+        if name == "sum" and args and isinstance(args[0], AList) and args[0].items and not kwargs and all(
+                (isinstance(x, Sym) and x.kind in ("int", "float")) or _isnum(x) for x in list(args[0].items) + list(args[1:2])) and any(
+                isinstance(x, Sym) for x in args[0].items):
+            # a sum of literal values: a computed value, as the chain of additions would give
+            acc = args[1] if len(args) > 1 else 0
+            for x in args[0].items:
+                acc = self.binop(ast.Add(), acc, x, site)
+            return acc
         if args and any(isinstance(a_, Num) for a_ in args) or (name in ("sum", "min", "max") and args and isinstance(args[0], AList)
                                                                and any(isinstance(x, Num) for x in args[0].items)):
             sp = _sp()
@@ -3341,6 +3353,10 @@ class Interp:
             except (ValueError, OverflowError, ZeroDivisionError, TypeError) as e_:
                 raise RaiseSig(type(e_).__name__, site, q)
             return AList(list(r_), "tuple") if isinstance(r_, tuple) else r_
+        if q in ("math.isclose", "isclose") and len(args) == 2 and any(isinstance(a_, Sym) and a_.kind in ("int", "float") for a_ in args) \
+                and all((isinstance(a_, Sym) and a_.kind in ("int", "float")) or _isnum(a_) for a_ in args):
+            # a literal (or a value computed from literals) close to a number or to another literal: either may be the case
+            return self.choose(f"isclose({_describe(args[0])}, {_describe(args[1])}) at {site}")
         if root in ("math", "cmath") and args and any(isinstance(a_, Num) for a_ in args):
             sp = _sp()
             fn_ = q.split(".")[-1]
